@@ -78,6 +78,9 @@ async fn asynchronous(worterbuch: &CloneableWbApi, config: &Config) -> Persisten
     )
     .await?;
 
+    #[cfg(feature = "verif")]
+    crate::verif::crash_point("flush.before_timestamp")?;
+
     File::create(&last_persisted).await?;
 
     Ok(())
@@ -118,6 +121,9 @@ pub(crate) async fn synchronous(
     )
     .await?;
 
+    #[cfg(feature = "verif")]
+    crate::verif::crash_point("flush.before_timestamp")?;
+
     File::create(&last_persisted).await?;
 
     Ok(())
@@ -135,6 +141,8 @@ async fn write_and_check(
     let checksum = compute_checksum(data);
 
     write_to_disk(data, file_path).await?;
+    #[cfg(feature = "verif")]
+    crate::verif::crash_point("write.between_data_and_checksum")?;
     write_to_disk(checksum.as_bytes(), checksum_file_path).await?;
 
     Ok(())
@@ -145,10 +153,16 @@ async fn write_to_disk(data: &[u8], path: &Path) -> PersistenceResult<()> {
     debug!("Writing file {} …", path.to_string_lossy());
     let tmp_file = format!("{}.tmp", path.to_string_lossy());
     write_file(&tmp_file, data).await?;
+    #[cfg(feature = "verif")]
+    crate::verif::crash_point("write.tmp_written")?;
     validate_file_content(&tmp_file, data).await?;
+    #[cfg(feature = "verif")]
+    crate::verif::crash_point("write.tmp_validated")?;
     fs::rename(tmp_file, path)
         .instrument(debug_span!("rename"))
         .await?;
+    #[cfg(feature = "verif")]
+    crate::verif::crash_point("write.renamed")?;
     debug!("Writing file {} done.", path.to_string_lossy());
 
     Ok(())
@@ -157,6 +171,8 @@ async fn write_to_disk(data: &[u8], path: &Path) -> PersistenceResult<()> {
 #[instrument(level=Level::DEBUG, skip(data), err)]
 async fn write_file<P: AsRef<Path> + Debug>(path: P, data: &[u8]) -> PersistenceResult<()> {
     let mut file = File::create(&path).await?;
+    #[cfg(feature = "verif")]
+    crate::verif::crash_point("write.tmp_created")?;
     file.write_all(data).await?;
     file.flush().await?;
     Ok(())
@@ -322,6 +338,8 @@ pub(crate) async fn file_paths(
 async fn toggle_alternating_files(path: &Path, write: bool) -> PersistenceResult<bool> {
     if write {
         if remove_file(path).await.is_ok() {
+            #[cfg(feature = "verif")]
+            crate::verif::crash_point("toggle.removed")?;
             debug!(
                 "toggle file {} removed, writing to backup",
                 path.to_string_lossy()
@@ -329,6 +347,8 @@ async fn toggle_alternating_files(path: &Path, write: bool) -> PersistenceResult
             Ok(false)
         } else {
             File::create(path).await?;
+            #[cfg(feature = "verif")]
+            crate::verif::crash_point("toggle.created")?;
             debug!(
                 "toggle file {} created, writing to main",
                 path.to_string_lossy()
